@@ -293,7 +293,8 @@ const JanetKV *janet_table_to_struct(JanetTable *t) {
 
 JanetTable *janet_table_proto_flatten(JanetTable *t) {
     JanetTable *newTable = janet_table(0);
-    while (t) {
+    /* Follow at most JANET_MAX_PROTO_DEPTH prototypes, as lookups do (a chain can be cyclic) */
+    for (int i = JANET_MAX_PROTO_DEPTH; t && i; --i) {
         JanetKV *kv = t->data;
         JanetKV *end = t->data + t->capacity;
         while (kv < end) {
